@@ -64,7 +64,6 @@ func vxIsAttackedSummary(p *Position, sq Square, by Color) bool {
 // IsLegalMove / DoMove+WasLegalMove == rules. Case split: origin, destination, move type concrete.
 func VN_C09_move_legality() int { return vxNumFeasible() }
 func VQ_C09_move_legality() int { return 16 }
-func VF_C09_move_legality() int { return vxNumSpecial() } // castling, en passant and promotions are always included
 func VH_C09_move_legality(i int) {
 	k := vxNthFeasible(i)
 	vxStub("(*github.com/frankkopp/FrankyGo/internal/position.Position).IsAttacked", vxIsAttackedSummary)
